@@ -209,6 +209,7 @@ PC_TYPES = {  # scenario kind -> (model file, name of the pc inductive)
     "rc": ("Adder/SimpleModel.v", "rpc"), "atomic": ("Adder/SimpleModel.v", "tpc"), "atomicf": ("Adder/SimpleModel.v", "tpc"),
     "mutexadd": ("Adder/SimpleModel.v", "xpc"),
     "breaker": ("Breaker/BreakerModel.v", "bpc"), "window": ("Breaker/BreakerModel.v", "bpc"),
+    "pool": ("Pool/PoolModel.v", "ppc"),
 }
 
 def pc_names(kind):
